@@ -89,7 +89,8 @@ var (
 
 func extractFromPath(path *Path, data []byte, optFuncs ...DecodeOptionFunc) ([][]byte, error) {
 	if path.path.RootSelectorOnly {
-		return [][]byte{data}, nil
+		// like every other selector: the result does not share memory with the caller's input
+		return [][]byte{append([]byte{}, data...)}, nil
 	}
 	src := make([]byte, len(data)+1) // append nul byte to the end
 	copy(src, data)
